@@ -57,13 +57,21 @@ func TestC09Child(t *testing.T) {
 	}
 	// unbounded recursion should exhaust the stack quickly instead of grinding through the
 	// default 1 GB limit; no legitimate lookup needs anywhere near 64 MB of stack
-	debug.SetMaxStack(64 << 20)
+	// (in the simulator every hop runs on its own goroutine, so a legitimate lookup uses a few KB;
+	// 8 MB is reached by self-recursion within ~100 ms, before a periodic finger repair can end it)
+	debug.SetMaxStack(8 << 20)
 	out := bufio.NewWriter(os.Stdout)
 	say := func(format string, args ...any) {
 		fmt.Fprintf(out, format+"\n", args...)
 		out.Flush()
 	}
-	r := newSimRing(ringsim.Config{Seed: int64(cs.Joiner) + 5})
+	cfg := ringsim.Config{Seed: int64(cs.Joiner) + 5}
+	if cs.Hook == "pred-stabilized-fingers-stale" {
+		// nobody repairs fingers on its own while the state is being probed
+		cfg.FixFingerInterval = 1500 * time.Millisecond
+		cfg.StabilizeInterval = 1500 * time.Millisecond
+	}
+	r := newSimRing(cfg)
 	if err := r.buildRing(cs.IDs, func(i int) int { return cs.Vias[i] }); err != nil {
 		say("PRECOND build-failed %v", err)
 		return
@@ -86,6 +94,10 @@ func TestC09Child(t *testing.T) {
 		gate = r.net.AddGate(&ringsim.Gate{Method: "FinishJoin", Caller: cs.Joiner, AnyCallee: true, Nth: 1})
 	case "pred-outgoing-lookup":
 		gate = r.net.AddGate(&ringsim.Gate{Method: "FindSuccessor", Caller: predID, AnyCallee: true, Nth: cs.Nth})
+	case "pred-stabilized-fingers-stale":
+		// the joiner's advisory to its predecessor is still on its way when the predecessor's
+		// own periodic stabilize adopts the joiner: successor new, finger table old
+		gate = r.net.AddGate(&ringsim.Gate{Method: "FinishJoin", Arg: "stabilize", Caller: cs.Joiner, Callee: predID, Nth: 1})
 	}
 
 	// candidate keys: generated absolute keys plus offsets around the neighbours
@@ -163,6 +175,15 @@ func TestC09Child(t *testing.T) {
 		select {
 		case <-gate.Reached():
 			say("GATE reached")
+			if cs.Hook == "pred-stabilized-fingers-stale" {
+				r.members[predID].Node.VerifStabilize()
+				p := r.members[predID].Node
+				f1 := uint64(0)
+				if f := p.VerifFinger(1); f != nil {
+					f1 = f.ID()
+				}
+				say("STATE pred=%d successors=%v finger1=%d", predID, vids(p.VerifSuccessors()), f1)
+			}
 			lookups("at-gate:" + cs.Hook)
 			gate.Release()
 		case err := <-joinDone:
@@ -191,7 +212,7 @@ func TestC09Child(t *testing.T) {
 
 func TestC09(t *testing.T) {
 	rec := ev.New(t, "C09")
-	rec.Rule("rapid-generated ring (1..4 real LocalNodes, adversarial id layouts) plus a joiner; the join is stopped at a generated hook point by a gate in the RPC proxy (joiner's first stabilize call = neighbours known, all fingers nil; the joiner's k-th outgoing finger lookup; just before FinishJoin; the predecessor's k-th outgoing finger lookup) and FindSuccessor is issued to the joiner, its neighbours and every other node for generated keys (uniform plus neighbour ids +/- small offsets), again while fingers are being repaired and after the join. Each case runs in a child process that journals every lookup before issuing it. Oracle: every lookup returns a node or an error; the child does not die of stack exhaustion; no lookup is pending for 20 s. A sub-case is one lookup; non-trivial: issued to a node with >= 1 nil finger for a key outside (pred,self] and (self,succ]. Distinct = (ring, joiner, hook, node, key).")
+	rec.Rule("rapid-generated ring (1..4 real LocalNodes, adversarial id layouts) plus a joiner; the join is stopped at a generated hook point by a gate in the RPC proxy (joiner's first stabilize call = neighbours known, all fingers nil; the joiner's k-th outgoing finger lookup; just before FinishJoin; the predecessor's k-th outgoing finger lookup; the predecessor having adopted the joiner through its own stabilize while the joiner's advisory is still in flight = successor new, finger table stale) and FindSuccessor is issued to the joiner, its neighbours and every other node for generated keys (uniform plus neighbour ids +/- small offsets), again while fingers are being repaired and after the join. Each case runs in a child process that journals every lookup before issuing it. Oracle: every lookup returns a node or an error; the child does not die of stack exhaustion; no lookup is pending for 20 s. A sub-case is one lookup; non-trivial: issued to a node with >= 1 nil finger for a key outside (pred,self] and (self,succ]. Distinct = (ring, joiner, hook, node, key).")
 	rec.Assume("child processes that fail for reasons other than the lookup (build/convergence preconditions) are inconclusive")
 	self := os.Args[0]
 	var mu sync.Mutex
@@ -262,7 +283,7 @@ func TestC09(t *testing.T) {
 			IDs:    ids,
 			Vias:   rapid.SliceOfN(rapid.IntRange(0, 1<<20), len(ids), len(ids)).Draw(t, "vias"),
 			Via:    rapid.IntRange(0, 3).Draw(t, "via"),
-			Hook:   rapid.SampledFrom([]string{"joiner-first-stabilize", "joiner-first-stabilize", "joiner-outgoing-lookup", "before-finish-join", "pred-outgoing-lookup", "none"}).Draw(t, "hook"),
+			Hook:   rapid.SampledFrom([]string{"joiner-first-stabilize", "joiner-first-stabilize", "joiner-outgoing-lookup", "before-finish-join", "pred-outgoing-lookup", "pred-stabilized-fingers-stale", "pred-stabilized-fingers-stale", "none"}).Draw(t, "hook"),
 			Nth:    rapid.IntRange(1, 60).Draw(t, "nth"),
 			Keys:   rapid.SliceOfN(rapid.Uint64Range(0, ringMax), 3, 3).Draw(t, "keys"),
 			KeyRel: rapid.SliceOfN(rapid.IntRange(-3, 3), 6, 6).Draw(t, "keyRel"),
@@ -288,6 +309,10 @@ func TestC09(t *testing.T) {
 var c09Regressions = []c09Case{
 	// joiner 250 into {100,200,300}: neighbours assigned, fingers nil, lookup of 50 recursed for ever
 	{IDs: []uint64{100, 200, 300}, Vias: []int{0, 0, 0}, Joiner: 250, Via: 0, Hook: "joiner-first-stabilize", Nth: 1, Keys: []uint64{50}, KeyRel: []int{0, 1, -1}},
+	// fixed scenario: predecessor 200 has adopted joiner 250 (successor new) while its finger table
+	// still points at 300; keys just behind the joiner are preceded by no finger
+	{IDs: []uint64{100, 200, 300}, Vias: []int{0, 0, 0}, Joiner: 250, Via: 0, Hook: "pred-stabilized-fingers-stale", Nth: 1, Keys: []uint64{251, 260, 299}, KeyRel: []int{1, 1, 1, 2, 2, 2}},
+	{IDs: []uint64{1 << 40, 1 << 47}, Vias: []int{0, 0}, Joiner: 1 << 44, Via: 1, Hook: "pred-stabilized-fingers-stale", Nth: 1, Keys: []uint64{1<<44 + 1, 1 << 46}, KeyRel: []int{1, -1, 1, 3, 2, 2}},
 }
 
 func head(s string, n int) string {
